@@ -845,6 +845,56 @@ func (g *Gen) scenarios() []intent {
 			return out
 		})
 	}
+	if c.has("recover") || c.has("confirm") {
+		// every kind of near-miss of an outstanding token, then the genuine one (which must still work)
+		add(boost(3, "tokens"), func() []SymStep {
+			u := g.known()
+			b := g.browser()
+			kind := "recover"
+			if !c.has("recover") || (c.has("confirm") && g.rng.Intn(2) == 0) {
+				kind = "confirm"
+			}
+			exact := Desc{K: "mailtok", Kind: kind, U: u}
+			var bad Desc
+			switch g.rng.Intn(8) {
+			case 0:
+				bad = Desc{K: "mut", D: &exact, Op: "flip", N: g.rng.Intn(512)}
+			case 1:
+				bad = Desc{K: "mut", D: &exact, Op: "trunc", N: 1 + g.rng.Intn(63)}
+			case 2, 3:
+				bad = Desc{K: "mut", D: &exact, Op: "ext", N: g.rng.Intn(256)}
+			case 4:
+				bad = Desc{K: "splice", D: &exact, D2: &Desc{K: "mailtok", Kind: kind, U: g.user()}}
+			case 5:
+				bad = Desc{K: "splice", D: &Desc{K: "mailtok", Kind: kind, U: g.user()}, D2: &exact}
+			case 6:
+				bad = Desc{K: "stored", U: u, V: "selver"}
+			default:
+				bad = Desc{K: "mut", D: &exact, Op: "stray"}
+			}
+			mk := func(tok Desc) SymStep {
+				if kind == "recover" {
+					np := lit("Nearmiss-1!Q")
+					return g.req(b, "POST", "RecoverEnd", []KV{{"token", tok}, {"password", np}, {"confirm_password", np}})
+				}
+				s := g.req(b, c.MailMethod, "Confirm", nil)
+				kv := []KV{{"cnf", tok}}
+				if c.MailMethod == "GET" {
+					s.Req.Query = kv
+				} else {
+					s.Req.Form = kv
+				}
+				return s
+			}
+			var out []SymStep
+			if kind == "recover" {
+				out = append(out, g.req(b, "POST", "RecoverStart", []KV{{g.pidField(), Desc{K: "pid", U: u}}}))
+			} else {
+				out = append(out, SymStep{Kind: "startconfirm", U: u})
+			}
+			return append(out, mk(bad), mk(exact))
+		})
+	}
 	if c.has("register") {
 		add(boost(2, "tokens", "register"), func() []SymStep {
 			u := g.user()
